@@ -58,6 +58,10 @@ func c02Alphabet() []TNode {
 		{Path: "src/l3", Kind: "link", Target: "..."},
 		{Path: "src/lq", Kind: "link", Target: "ld/../a"}, // '..' after a symlinked directory: cleaning it changes the meaning
 		{Path: "src/l5", Kind: "link", Target: "./a"},
+		// dangling in ways other than "no such file": through a regular file (ENOTDIR), a link to itself and through it (ELOOP)
+		{Path: "src/lf", Kind: "link", Target: "a/x"},
+		{Path: "src/lself", Kind: "link", Target: "lself"},
+		{Path: "src/lc", Kind: "link", Target: "lself/x"},
 	}
 }
 
@@ -77,6 +81,10 @@ func c05Skeleton() []TNode {
 		{Path: "out/h", Kind: "file", Body: "<SELF>", Mode: 0600},
 		{Path: "ou2/h", Kind: "file", Body: "<SELF>", Mode: 0640},
 		{Path: "ou2/sub", Kind: "dir"},
+		// a directory two levels down, and an out-of-tree link that leads back to it: reached through
+		// src/x -> ../out/back it is packed a second time, one level higher than where it lives
+		{Path: "src/d/e/g", Kind: "file", Body: "<SELF>"},
+		{Path: "out/back", Kind: "link", Target: "../src/d/e"},
 	}
 }
 
@@ -92,7 +100,7 @@ func c05Links() []TNode {
 	add("src/zz", "../a", "../out/f", "a", "../src/a", "../src/d")
 	add("src/d/l2", "../../src/a", "<W>/out/./dir/", "<W>/out/dir/../dir")
 	add("src-evil/sub/back", "../../src/a", "s")
-	add("src/m", "../out/f", "../out/dir", "a", "l")
+	add("src/m", "../out/f", "../out/dir", "a", "l", "l/g", "l/f") // l/g, l/f: through the link src/l, no '..' in the text
 	add("out/dir/l", "../../src/a", "g", "../f", "../../out2/h", "../../out2", "../../src/d", "<W>/src/a", "<W>/out/dir/g")
 	add("src/le", "../ou2/sub")                                                 // an EMPTY directory outside the tree
 	add("out/hop", "../ou2/sub")                                                // a directory link outside the tree ...
@@ -100,6 +108,8 @@ func c05Links() []TNode {
 	add("src/here", ".", "d/..")                                                // a link to the root itself ...
 	add("src/lh", "here/../out/f", "here/../src-evil/secret", "here/a")         // ... followed by '..': inside as text, outside when followed
 	add("out/dir/k", "../../out/dir/g", "../dir/g", "./g", "../../out/dir")     // stays inside the external directory, by way of its own name
+	add("src/x", "../out/back")                                                 // out of the tree and back in, to src/d/e
+	add("src/d/e/l", "../../d/e/g", "g", "../f")                                // leaves its directory and re-enters it by name
 	return ns
 }
 
@@ -295,7 +305,7 @@ func checkC05(arg PackArg, out PackOut) (mism []string, verdict bool) {
 		case tar.TypeReg, tar.TypeRegA:
 			prov := e.Body // W-relative path of the file the bytes came from
 			own := "src/" + e.Name
-			if prov == own {
+			if prov == own || e.Name == ".terraformignore" {
 				continue
 			}
 			if !arg.Deref {
@@ -348,7 +358,11 @@ func checkC05(arg PackArg, out PackOut) (mism []string, verdict bool) {
 		for _, e := range out.Entries {
 			have[strings.TrimSuffix(e.Name, "/")] = true
 		}
+		rules := c02Expect(arg.Nodes, arg.Ignore)
 		for _, n := range arg.Nodes {
+			if n.Kind == "link" && strings.HasPrefix(n.Path, "src/") && arg.Ignore && ref.Excluded(rules, strings.TrimPrefix(n.Path, "src/")) {
+				continue // excluded by the tree's own rule file
+			}
 			if n.Kind == "link" && strings.HasPrefix(n.Path, "src/") && !have[strings.TrimPrefix(n.Path, "src/")] {
 				mism = append(mism, fmt.Sprintf("link %s -> %s was left out of the slug although Pack reported success", n.Path, n.Target))
 			}
@@ -368,9 +382,13 @@ func c05MustFail(arg PackArg) (bool, string) {
 	if arg.Deref {
 		return false, ""
 	}
+	rules := c02Expect(arg.Nodes, arg.Ignore)
 	for _, n := range arg.Nodes {
 		if n.Kind != "link" || !strings.HasPrefix(n.Path, "src/") {
 			continue
+		}
+		if arg.Ignore && ref.Excluded(rules, strings.TrimPrefix(n.Path, "src/")) {
+			continue // a link the tree's own rules exclude is never looked at
 		}
 		var lex string
 		if strings.HasPrefix(n.Target, "<W>") {
@@ -674,6 +692,20 @@ func RunPackTrees(id, tier string) int {
 			}
 		}
 		runSet("skeleton+<=2-links/packer-reused", t1, []packOpt{{Reuse: true}, {Deref: true, Reuse: true}})
+		// the tree's own rule file excludes the link src/l: what other links reach THROUGH it must still be judged
+		var tl [][]TNode
+		for _, t := range t1 {
+			hasL := false
+			for _, n := range t {
+				if n.Path == "src/l" {
+					hasL = true
+				}
+			}
+			if hasL {
+				tl = append(tl, append(append([]TNode{}, t...), TNode{Path: "src/.terraformignore", Kind: "file", Body: "/l\n"}))
+			}
+		}
+		runSet("skeleton+<=2-links, src/l excluded by the rule file", tl, []packOpt{{Ignore: true}, {Ignore: true, Deref: true}, {Ignore: true, AllowOut: true}})
 		// relative allow-list entries are relative to the root of EACH operation (also on a reused Packer)
 		relNodes := []TNode{{Path: "one/proj/a", Kind: "file", Body: "<SELF>"}, {Path: "one/proj/link", Kind: "link", Target: "../shared/f"}, {Path: "one/shared/f", Kind: "file", Body: "<SELF>"},
 			{Path: "two/proj/a", Kind: "file", Body: "<SELF>"}, {Path: "two/proj/link", Kind: "link", Target: "../../one/shared/f"}, {Path: "two/shared/g", Kind: "file", Body: "<SELF>"}, {Path: "two/proj/ok", Kind: "link", Target: "../shared/g"}}
